@@ -37,12 +37,13 @@ def _words(alpha, n):
 class PairSystem(System):
     name = "pairs"
 
-    def __init__(self, tier):
+    def __init__(self, tier, name="pairs", alpha="aA*\\.+"):
         super().__init__(tier)
+        self.name = name
         if tier == "quick":
-            self.alpha, self.np, self.nn = "aA*\\.+", 5, 4
+            self.alpha, self.np, self.nn = alpha, 5, 4
         else:
-            self.alpha, self.np, self.nn = "aA*\\.+", 6, 4
+            self.alpha, self.np, self.nn = alpha, 6, 4
         self.names = list(_words(self.alpha, self.nn))
         self.description = (
             f"all patterns of length <= {self.np} x all names of length <= {self.nn} over {self.alpha!r} "
@@ -308,6 +309,68 @@ class CliSystem(System):
         return Obs(digest=json.dumps(exp, sort_keys=True), nontrivial=0 < size < total, violations=viol, transitions=1, validated=1)
 
 
+class AcrossDocumentsSystem(System):
+    """the same inv: link in two documents of ONE process whose inventories differ: each is resolved against its own document's inventories"""
+
+    name = "links-across-documents"
+    fork_per_case = True
+    chunk = 1
+    description = ("every ordered pair of 3 inventory settings (same keys, other files / base URLs / missing key) x 6 links: the second document must come out "
+                   "as when it is parsed first in a fresh process")
+
+    LINKS = ["<inv:#sec-one>", "<inv:k1#sec-one>", "[t](inv:k1:std:label#sec*)", "<inv:#nomatch>", "<inv:k2#only2>", "[](inv:#mod.func)"]
+
+    def prepare(self, ctx):
+        self.dir = ctx.scratch / "c19across"
+        self.dir.mkdir(exist_ok=True)
+        files = {}
+        for key, (base, proj, ver, lines) in LINK_INVS.items():
+            if key == "k1b":
+                continue
+            p = self.dir / f"{key}.inv"
+            p.write_bytes(make_v2(proj, ver, [" ".join(e) for e in lines]))
+            files[key] = str(p)
+        alt = self.dir / "alt.inv"
+        alt.write_bytes(make_v2("ALT", "9", ["sec-one std:label -1 alt.html#$ Alt section", "only2 std:term -1 alt.html#t -"]))
+        self.settings = [
+            {"k1": ["https://a.org/r/", files["k1"]], "k2": ["https://b.org", files["k2"]]},
+            {"k1": ["https://mirror.org/m/", str(alt)], "k2": ["https://b.org", files["k2"]]},  # same key, another file and base URL
+            {"k2": ["https://b2.org/x/", files["k2"]]},  # k1 missing
+        ]
+
+    def bounds(self):
+        return {"settings": 3, "links": len(self.LINKS)}
+
+    def rule(self):
+        return "one case = (first setting, second setting, link) in a fresh process; non-trivial = the two settings differ"
+
+    def cases(self):
+        for a in range(3):
+            for b in range(3):
+                for l in range(len(self.LINKS)):
+                    yield [a, b, l]
+
+    def render(self, setting, link):
+        from ..drivers import docutils_doctree
+
+        doc, warn = docutils_doctree(f"PRE {link} POST\n", {"myst_inventories": setting})
+        return doc.pformat() + "\n" + warn
+
+    def run(self, case):
+        from .c15 import in_child
+
+        a, b, l = case
+        link = self.LINKS[l]
+        fresh = in_child(self.render, self.settings[b], link)
+        self.render(self.settings[a], link)
+        got = self.render(self.settings[b], link)
+        viol = []
+        if got != fresh:
+            viol.append(violation("link-sequence", {"clause": "link-across-documents"},
+                                  f"{link} under inventory setting #{b} after a document with setting #{a}: {got!r}, parsed first in a fresh process: {fresh!r}"))
+        return Obs(digest=(a, b, l, hash(got) % 10000), nontrivial=a != b, violations=viol, transitions=2, validated=1)
+
+
 # ------------------------------------------------------------------------------------------------
 LINK_INVS = {
     # key: (base_url, project, version, [(name, domain:type, priority, location, display name)])
@@ -535,7 +598,8 @@ class MultiLinkSystem(LinkSystem):
 
 
 def systems(tier):
-    return [PairSystem(tier), CacheSystem(tier), FilterSystem(tier), CliSystem(tier), LinkSystem(tier), MultiLinkSystem(tier)]
+    return [PairSystem(tier), PairSystem(tier, "pairs-braces", "a2*{},"), CacheSystem(tier), FilterSystem(tier), CliSystem(tier), LinkSystem(tier), MultiLinkSystem(tier),
+            AcrossDocumentsSystem(tier)]
 
 
 def vacuity(results):
